@@ -115,6 +115,10 @@ CMR_ERROR CMRregularityDecomposeThreeSum(
       /* Tested in ThreesumPivotHighRank unittest. */
       queue->foundIrregularity = true;
 
+      /* The node is a leaf; nothing is left to do for this task. */
+      CMR_CALL( CMRchrmatFree(cmr, &childMatrix) );
+      CMR_CALL( CMRregularityTaskFree(cmr, &task) );
+
       return CMR_OKAY;
     }
 
@@ -145,6 +149,11 @@ CMR_ERROR CMRregularityDecomposeThreeSum(
       CMR_CALL( CMRseymourUpdateViolator(cmr, node, violatorSubmatrix) );
       assert(node->type == CMR_SEYMOUR_NODE_TYPE_IRREGULAR);
       queue->foundIrregularity = true;
+
+      /* The node is a leaf; nothing is left to do for this task. */
+      CMR_CALL( CMRchrmatFree(cmr, &childTransposed) );
+      CMR_CALL( CMRchrmatFree(cmr, &childMatrix) );
+      CMR_CALL( CMRregularityTaskFree(cmr, &task) );
 
       return CMR_OKAY;
     }
